@@ -1102,3 +1102,48 @@ package spine
 //@   ensures[C11,C04] empty-store-stays-empty: !fast && D0 == nil && (result1 != nil || !persist) ==> r.data == nil
 //@   ensures[C11] atomic: acquisitions(r.mux) == 1 && locksUnchanged()
 //@   modifies r.data, cells(T), cells(model.ErrorType), cells(model.DescriptionType), world, held
+
+// ---------------------------------------------------------------------------------------
+// lock discipline (C17): one level per lock class; a mutex may only be acquired while every mutex already held has a
+// strictly smaller level (checked at every Lock and at every call that may lock, over all functions)
+//@ lock FeatureLocal.muxWriteReceived level 10
+//@ lock FeatureLocal.muxResponseCB level 20
+//@ lock HeartbeatManager.stopMux level 25
+//@ lock HeartbeatManager.mux level 30
+//@ lock SubscriptionManager.mux level 40
+//@ lock BindingManager.mux level 41
+//@ lock events.mu level 50
+//@ lock events.muHandle level 55
+//@ lock DeviceLocal.mux level 60
+//@ lock DeviceRemote.entitiesMutex level 62
+//@ lock EntityLocal.mux level 65
+//@ lock EntityRemote.mux level 66
+//@ lock Entity.muxGenerator level 70
+//@ lock FeatureLocal.mux level 75
+//@ lock FeatureRemote.mux level 76
+//@ lock FunctionData.mux level 80
+//@ lock Sender.muxRequestSend level 85
+//@ lock Sender.muxReadCache level 90
+//@ lock Sender.muxNotifyCache level 91
+// helpers that are called with a lock held / on an object that is still under construction
+//@ discipline (*HeartbeatManager).isHeartbeatClosed requires held(c.stopMux)
+//@ discipline (*HeartbeatManager).isHeartbeatRunning requires held(c.stopMux)
+//@ discipline (*HeartbeatManager).stopHeartbeat requires held(c.stopMux)
+//@ discipline (*DeviceLocal).addDeviceInformation requires confined(r)
+// guarded state (C17): every access to these fields holds the named mutex of the same object
+//@ field[C17] DeviceLocal.remoteDevices guarded_by mux
+//@ field[C17] DeviceRemote.entities guarded_by entitiesMutex
+//@ field[C17] EntityRemote.features guarded_by mux
+//@ field[C17] SubscriptionManager.subscriptionEntries guarded_by mux
+//@ field[C17] BindingManager.bindingEntries guarded_by mux
+//@ field[C17] events.handlers guarded_by mu
+//@ field[C17] Sender.reqMsgCache guarded_by muxReadCache
+//@ field[C17] Sender.datagramNotifyCache guarded_by muxNotifyCache
+//@ field[C17] FeatureLocal.responseMsgCallback guarded_by muxResponseCB
+//@ field[C17] FeatureLocal.resultCallbacks guarded_by muxResponseCB
+//@ field[C17] FeatureLocal.pendingWriteApprovals guarded_by muxResponseCB
+//@ field[C17] FeatureLocal.writeApprovalReceived guarded_by muxWriteReceived
+//@ field[C17] FeatureLocal.bindings guarded_by mux
+//@ field[C17] FeatureLocal.subscriptions guarded_by mux
+//@ field[C17] HeartbeatManager.localFeature guarded_by mux
+//@ field[C17] HeartbeatManager.localEntity guarded_by mux
